@@ -1,4 +1,4 @@
-import HdVerif.Proofs.SegRoundtrip
+import HdVerif.Proofs.SegTie
 import HdVerif.Generated.T21
 /-! # C01  Segmentation masks survive encode, write and read unchanged
 
@@ -433,6 +433,61 @@ theorem build_rejects_bad_options (rows cols : Nat) (segs : List Nat) (mfv : Nat
     (∀ c : Codec, c.j2k = false → ∃ e, build (some c) rows cols .binary segs mfv omt order m = .error e) :=
   ⟨fun codec h => reject_mfv codec rows cols segs mfv omt order m h,
    fun c hc => reject_encapsulated_binary c hc rows cols segs mfv omt order m⟩
+
+/-! (9) **Ties of hand-written decisions to the regenerated source** (T22, T23, T24; `Proofs/SegTie.lean`).  The
+model functions are unchanged; these say that the comparisons, constants, indices and branch orders they contain are
+the ones the source has now. -/
+
+/-- (9a) `_check_and_cast_pixel_array`: the fast undescribed-label test, the refusal of non-binary stacks followed by
+the overlap decision (branch order all-zero / one channel / per-pixel sums), the float range test and the
+"genuine fraction" test of the model are the regenerated expressions (T22). -/
+theorem cast_guards_are_the_sources (segs : List Nat) (t : SegType) :
+    (∀ ps, ((List.range' 1 segs.length).all (· ∈ segs) &&
+          segs.all (fun s => decide (1 ≤ s) && decide (s ≤ segs.length))) = true →
+        castUndescribedFast (segs.length : Int) (listMax (ps.map listMax) : Int) = .ok (undescribed segs ps)) ∧
+    (∀ ps, castValues segs t (.intStack ps) =
+        (match castStackMaxGuard (listMax (ps.map fun pl => listMax (pl.map listMax)) : Int) with
+         | .error e => .error e
+         | .ok _ => .ok (Mask.intStack ps, overlapOfStack segs.length ps))) ∧
+    (∀ (n : Nat) ps, castOverlapInt (listMax (ps.map fun pl => listMax (pl.map listMax)) : Int) (n : Int)
+          (ps.any (fun pl => pl.any (fun ch => decide (sumNat ch > 1)))) = .ok (overlapCode (overlapOfStack n ps))) ∧
+    (∀ ch, castOverlapSum (sumNat ch : Int) = .ok (decide (sumNat ch > 1))) ∧
+    (∀ x : Rat, (castFloatRange x x = .error .value) ↔ (x < 0 ∨ 1 < x)) ∧
+    (∀ x : Rat, castFloatNonBoolean x = .ok (decide (0 < x ∧ x < 1))) :=
+  ⟨fun ps hc => undescribed_fast_gen segs ps hc, fun ps => castValues_intStack_gen segs t ps,
+   fun n ps => overlapOfStack_gen n ps, overlapSum_gen, floatRange_gen, floatNonBoolean_gen⟩
+
+/-- (9b) Frame loop and `_get_segment_pixel_array`: a single-segment frame is dropped exactly under the regenerated
+skip test; segment `s` of a stack is read from the regenerated channel index; binary values are stretched exactly
+under the regenerated guard to the regenerated product; fractions are rounded from the regenerated product (T23). -/
+theorem loop_decisions_are_the_sources (mfv w : Nat) :
+    (∀ omt sg px, ∃ b, loopSkipGuard omt (px.any (· != 0)) = .ok b ∧ keep omt sg px = !(sg.isSome && b)) ∧
+    (∀ s : Nat, 1 ≤ s → segChannelIndex (s : Int) = .ok ((s - 1 : Nat) : Int)) ∧
+    (∀ b, ∃ g, segStretchGuard (mfv : Int) = .ok g ∧
+        stretch .fractional mfv w b = if g then b.map (fun v => wrap w (v * mfv)) else b) ∧
+    (∀ v : Nat, segStretchValue (v : Int) (mfv : Int) = .ok ((v * mfv : Nat) : Int)) ∧
+    (∀ x : Rat, ∃ p, segFractionProduct x (mfv : Int) = .ok p ∧ quantise mfv x = (roundHalfEven p).toNat) :=
+  ⟨keep_gen, channelIndex_gen, stretch_gen mfv w, fun v => stretchValue_gen v mfv, quantise_gen mfv⟩
+
+/-- (9c) Source-frame numbering: the model's refusal of `get_pixels_by_source_frame` without the flag is the regenerated
+test `f > max_frame_number` on the frame numbers the constructor records (`source_image_index + 1`), and every
+recorded number passes the regenerated admissibility test `f > 0` (T24). -/
+theorem frame_numbering_is_the_sources (o : SegObj) (request : List Nat) :
+    missingRefusal o request .byFrame =
+      (if request.any (fun p =>
+          match pffgFrameNumber (p : Int) with
+          | .ok f => (match srcFrameMissing f (listMax (o.keys.map (fun k =>
+                          match pffgFrameNumber (k.2 : Int) with | .ok g => g.toNat | .error _ => 0)) : Int) with
+                      | .ok b => b | .error _ => false)
+          | .error _ => false)
+       then some .value else none) ∧
+    ∀ p : Nat, ∃ f, pffgFrameNumber (p : Int) = .ok f ∧ srcFramePositive f = .ok true :=
+  ⟨missingRefusal_byFrame_gen o request, recorded_numbers_positive⟩
+
+/-- non-vacuity of (9): the regenerated guards on concrete values -/
+example : castStackMaxGuard 2 = .error .value ∧ castUndescribedFast 3 4 = .ok true ∧ castOverlapInt 1 3 true = .ok 1 ∧
+    loopSkipGuard true false = .ok true ∧ segChannelIndex 3 = .ok 2 ∧ pffgFrameNumber 0 = .ok 1 ∧
+    srcFrameMissing 3 2 = .ok true ∧ srcFrameMissing 2 2 = .ok false := by decide
 
 /-! Non-vacuity: concrete non-trivial inputs satisfying the hypotheses. -/
 
